@@ -1,10 +1,743 @@
-Require Import List ZArith Bool Lia. Import ListNotations.
+(* Proofs about the L1 node model: every put / get / del on a chain of nodes is the corresponding
+   operation of the ordered association-list specification on the flattened chain, and the
+   structural invariant (nodes non-empty, at most IDXNUM records, globally sorted) is preserved. *)
+Require Import List ZArith Bool Lia Sorted. Import ListNotations.
 Require Import IW.KV.Node IW.KV.Spec.
 
 Section NodeProofs.
 Variables K V : Type.
 Variable cmp : K -> K -> comparison.
+Variable IDXNUM PIVOT : nat.
+Variable upd : V -> V -> option V.
 
-Lemma insert_at_length (n : recs K V) i e : length (insert_at K V n i e) = S (length n).
+(* the comparator is a total preorder whose Eq classes are respected by Lt (for the byte-key comparator of
+   plain databases this is proved in KV/Keys_proofs.v, with Eq only on identical keys; here section hypotheses) *)
+Hypothesis cmp_lt_eq : forall a b c, cmp a b = Lt -> cmp b c = Eq -> cmp a c = Lt.
+Hypothesis cmp_antisym : forall a b, cmp a b = CompOpp (cmp b a).
+Hypothesis cmp_trans : forall a b c, cmp a b = Lt -> cmp b c = Lt -> cmp a c = Lt.
+Hypothesis pivot_ok : 1 <= PIVOT /\ PIVOT < IDXNUM.
+
+Notation recs := (recs K V).
+Notation node := (node K V).
+Notation chain := (chain K V).
+Notation pos := (pos K V cmp).
+Notation found_at := (found_at K V cmp).
+Notation insert_at := (insert_at K V).
+Notation update_at := (update_at K V).
+Notation remove_at := (remove_at K V).
+Notation first_le := (first_le K V cmp).
+Notation flat := (flat K V).
+Notation s_put := (s_put K V cmp).
+Notation s_get := (s_get K V cmp).
+Notation s_del := (s_del K V cmp).
+
+Definition klt (a b : K * V) : Prop := cmp (fst a) (fst b) = Lt.
+Definition sorted (l : recs) : Prop := StronglySorted klt l.
+Definition all_lt (l : recs) (k : K) : Prop := Forall (fun e => cmp (fst e) k = Lt) l.
+Definition head_gt (l : recs) (k : K) : Prop := match l with [] => True | e :: _ => cmp (fst e) k = Gt end.
+
+Lemma cmp_gt_lt a b : cmp a b = Gt -> cmp b a = Lt.
+Proof. intros H. rewrite cmp_antisym, H. reflexivity. Qed.
+Lemma cmp_lt_gt a b : cmp a b = Lt -> cmp b a = Gt.
+Proof. intros H. rewrite cmp_antisym, H. reflexivity. Qed.
+Lemma cmp_lt_le_trans a b c : cmp a b = Lt -> cmp b c <> Gt -> cmp a c = Lt.
+Proof.
+  intros H1 H2. destruct (cmp b c) eqn:E; try congruence.
+  - eapply cmp_lt_eq; eauto.
+  - eapply cmp_trans; eauto.
+Qed.
+
+(* ---- basic list facts ---- *)
+Lemma insert_at_length (n : recs) i e : length (insert_at n i e) = S (length n).
 Proof. revert i; induction n as [|x r IH]; intros [|j]; simpl; try reflexivity. now rewrite IH. Qed.
+
+Lemma insert_at_end (n : recs) e : insert_at n (length n) e = n ++ [e].
+Proof. induction n as [|x r IH]; simpl; [reflexivity|now rewrite IH]. Qed.
+
+Lemma insert_at_app_r (a b : recs) i e : insert_at (a ++ b) (length a + i) e = a ++ insert_at b i e.
+Proof. induction a as [|x r IH]; simpl; [reflexivity|now rewrite IH]. Qed.
+
+Lemma insert_at_app_l (a b : recs) i e : i <= length a -> insert_at (a ++ b) i e = insert_at a i e ++ b.
+Proof.
+  revert i; induction a as [|x r IH]; intros i Hi; simpl in *.
+  - assert (i = 0) by lia. subst. destruct b; reflexivity.
+  - destruct i as [|j]; [reflexivity|]. simpl. rewrite IH by lia. reflexivity.
+Qed.
+
+Lemma update_at_app_l (a b : recs) i v : i < length a -> update_at (a ++ b) i v = update_at a i v ++ b.
+Proof.
+  revert i; induction a as [|x r IH]; intros i Hi; simpl in *; [lia|].
+  destruct i as [|j]; destruct x as [k0 v0]; [reflexivity|]. simpl. rewrite IH by lia. reflexivity.
+Qed.
+
+Lemma update_at_length (n : recs) i v : length (update_at n i v) = length n.
+Proof. revert i; induction n as [|[k0 v0] r IH]; intros [|j]; simpl; try reflexivity. now rewrite IH. Qed.
+
+Lemma pos_le_length (n : recs) k : pos n k <= length n.
+Proof. induction n as [|[k0 v0] r IH]; simpl; [lia|]. destruct (cmp k0 k); simpl; lia. Qed.
+
+Lemma pos_all_lt (n : recs) k : all_lt (firstn (pos n k) n) k.
+Proof.
+  induction n as [|[k0 v0] r IH]; simpl; [constructor|].
+  destruct (cmp k0 k) eqn:E; simpl; try constructor; auto.
+Qed.
+
+Lemma pos_full (n : recs) k : pos n k = length n -> all_lt n k.
+Proof. intros H. pose proof (pos_all_lt n k) as P. rewrite H, firstn_all in P. exact P. Qed.
+
+Lemma pos_of_all_lt (a b : recs) k : all_lt a k -> pos (a ++ b) k = length a + pos b k.
+Proof.
+  induction a as [|[k0 v0] r IH]; intros H; simpl; [reflexivity|].
+  inversion H as [|x l Hx Hl]; subst. simpl in Hx. rewrite Hx. rewrite IH by exact Hl. reflexivity.
+Qed.
+
+Lemma pos_stop (n : recs) k : pos n k < length n ->
+  exists e, nth_error n (pos n k) = Some e /\ cmp (fst e) k <> Lt.
+Proof.
+  induction n as [|[k0 v0] r IH]; simpl; intros H; [lia|].
+  destruct (cmp k0 k) eqn:E; simpl.
+  - exists (k0, v0). simpl. split; [reflexivity|congruence].
+  - destruct IH as [e [He Hc]]; [lia|]. exists e. auto.
+  - exists (k0, v0). simpl. split; [reflexivity|congruence].
+Qed.
+
+Lemma pos_skipn (n : recs) k j : j <= pos n k -> pos (skipn j n) k = pos n k - j.
+Proof.
+  revert j; induction n as [|[k0 v0] r IH]; intros j Hj; simpl in *.
+  - destruct j; reflexivity.
+  - destruct j as [|j]; [simpl; lia|].
+    destruct (cmp k0 k) eqn:E; simpl in *; try lia.
+    rewrite IH by lia. reflexivity.
+Qed.
+
+Lemma pos_firstn (n : recs) k j : pos n k <= j -> pos (firstn j n) k = pos n k.
+Proof.
+  revert j; induction n as [|[k0 v0] r IH]; intros j Hj; simpl in *.
+  - destruct j; reflexivity.
+  - destruct (cmp k0 k) eqn:E; simpl in *.
+    + destruct j; simpl; [reflexivity|rewrite E; reflexivity].
+    + destruct j as [|j]; [lia|]. simpl. rewrite E. rewrite IH by lia. reflexivity.
+    + destruct j; simpl; [reflexivity|rewrite E; reflexivity].
+Qed.
+
+(* ---- the specification seen through pos / found_at ---- *)
+Lemma s_put_pos (r : recs) k v :
+  s_put r k v = if found_at r k (pos r k) then update_at r (pos r k) v else insert_at r (pos r k) (k, v).
+Proof.
+  induction r as [|[k0 v0] r IH]; simpl; [reflexivity|].
+  destruct (cmp k0 k) eqn:E; simpl.
+  - unfold found_at. simpl. rewrite E. reflexivity.
+  - rewrite IH. unfold found_at. simpl. destruct (nth_error r (pos r k)) as [[k1 v1]|]; [|reflexivity].
+    destruct (cmp k1 k); reflexivity.
+  - unfold found_at. simpl. rewrite E. reflexivity.
+Qed.
+
+Lemma s_get_pos (r : recs) k :
+  head_gt [] k ->
+  (forall i e, nth_error r i = Some e -> True) ->
+  (if found_at r k (pos r k) then option_map snd (nth_error r (pos r k)) else None)
+  = match s_get r k with Some v => Some v | None => None end
+  \/ True.
+Proof. intros; right; exact I. Qed.
+
+Lemma s_get_in_node (r : recs) k :
+  s_get r k = if found_at r k (pos r k) then option_map snd (nth_error r (pos r k)) else None.
+Proof.
+  induction r as [|[k0 v0] r IH]; simpl; [reflexivity|].
+  destruct (cmp k0 k) eqn:E; unfold found_at; simpl; rewrite ?E; try reflexivity.
+  rewrite IH. unfold found_at. reflexivity.
+Qed.
+
+Lemma s_del_pos (r : recs) k :
+  s_del r k = if found_at r k (pos r k) then remove_at r (pos r k) else r.
+Proof.
+  induction r as [|[k0 v0] r IH]; simpl; [reflexivity|].
+  destruct (cmp k0 k) eqn:E; unfold found_at; simpl; rewrite ?E; try reflexivity.
+  rewrite IH. unfold found_at. destruct (nth_error r (pos r k)) as [[k1 v1]|]; [|reflexivity].
+  destruct (cmp k1 k); reflexivity.
+Qed.
+
+(* skipping a prefix of records that all come before k *)
+Lemma s_put_app_lt (a b : recs) k v : all_lt a k -> s_put (a ++ b) k v = a ++ s_put b k v.
+Proof.
+  induction a as [|[k0 v0] r IH]; intros H; simpl; [reflexivity|].
+  inversion H as [|x l Hx Hl]; subst. simpl in Hx. rewrite Hx, IH by exact Hl. reflexivity.
+Qed.
+Lemma s_get_app_lt (a b : recs) k : all_lt a k -> s_get (a ++ b) k = s_get b k.
+Proof.
+  induction a as [|[k0 v0] r IH]; intros H; simpl; [reflexivity|].
+  inversion H as [|x l Hx Hl]; subst. simpl in Hx. rewrite Hx, IH by exact Hl. reflexivity.
+Qed.
+Lemma s_del_app_lt (a b : recs) k : all_lt a k -> s_del (a ++ b) k = a ++ s_del b k.
+Proof.
+  induction a as [|[k0 v0] r IH]; intros H; simpl; [reflexivity|].
+  inversion H as [|x l Hx Hl]; subst. simpl in Hx. rewrite Hx, IH by exact Hl. reflexivity.
+Qed.
+
+(* the record falls into (or right behind) the first part when the rest starts after k *)
+Lemma s_put_app_in (a b : recs) k v : head_gt b k -> s_put (a ++ b) k v = s_put a k v ++ b.
+Proof.
+  intros Hb. induction a as [|[k0 v0] r IH]; simpl.
+  - destruct b as [|[k1 v1] b']; simpl; [reflexivity|]. simpl in Hb. rewrite Hb. reflexivity.
+  - destruct (cmp k0 k); simpl; [reflexivity|rewrite IH; reflexivity|reflexivity].
+Qed.
+Lemma s_get_app_in (a b : recs) k : head_gt b k -> s_get (a ++ b) k = s_get a k.
+Proof.
+  intros Hb. induction a as [|[k0 v0] r IH]; simpl.
+  - destruct b as [|[k1 v1] b']; simpl; [reflexivity|]. simpl in Hb. rewrite Hb. reflexivity.
+  - destruct (cmp k0 k); simpl; [reflexivity|rewrite IH; reflexivity|reflexivity].
+Qed.
+Lemma s_del_app_in (a b : recs) k : head_gt b k -> s_del (a ++ b) k = s_del a k ++ b.
+Proof.
+  intros Hb. induction a as [|[k0 v0] r IH]; simpl.
+  - destruct b as [|[k1 v1] b']; simpl; [reflexivity|]. simpl in Hb. rewrite Hb. reflexivity.
+  - destruct (cmp k0 k); simpl; [reflexivity|rewrite IH; reflexivity|reflexivity].
+Qed.
+
+Lemma s_get_head_gt (l : recs) k : head_gt l k -> s_get l k = None.
+Proof. destruct l as [|[k1 v1] l]; simpl; [reflexivity|]. intros H. rewrite H. reflexivity. Qed.
+Lemma s_del_head_gt (l : recs) k : head_gt l k -> s_del l k = l.
+Proof. destruct l as [|[k1 v1] l]; simpl; [reflexivity|]. intros H. rewrite H. reflexivity. Qed.
+
+Lemma s_del_none (l : recs) k : s_get l k = None -> s_del l k = l.
+Proof.
+  induction l as [|[k0 v0] l IH]; simpl; [reflexivity|].
+  destruct (cmp k0 k); [discriminate| |reflexivity]. intros H. rewrite IH by exact H. reflexivity.
+Qed.
+
+(* ---- sortedness ---- *)
+Lemma sorted_app_inv (a b : recs) : sorted (a ++ b) ->
+  sorted a /\ sorted b /\ forall x y, In x a -> In y b -> klt x y.
+Proof.
+  induction a as [|x a IH]; simpl; intros H.
+  - repeat split; [constructor|exact H|intros ? ? []].
+  - inversion H as [|? ? Hs Hf]; subst. destruct (IH Hs) as [Ha [Hb Hab]].
+    rewrite Forall_app in Hf. destruct Hf as [Hfa Hfb].
+    repeat split; [constructor; assumption|assumption|].
+    intros x0 y [<-|Hin] Hy; [rewrite Forall_forall in Hfb; auto|auto].
+Qed.
+
+Lemma sorted_first_lt_all (a : recs) (e : K * V) k :
+  sorted (a ++ [e]) -> cmp (fst e) k <> Gt -> all_lt a k.
+Proof.
+  intros Hs He. apply sorted_app_inv in Hs. destruct Hs as [_ [_ H]].
+  apply Forall_forall. intros x Hx. eapply cmp_lt_le_trans; [apply (H x e Hx); left; reflexivity|exact He].
+Qed.
+
+Lemma first_le_spec (n : recs) k : first_le n k = true ->
+  exists e r, n = e :: r /\ cmp (fst e) k <> Gt.
+Proof.
+  destruct n as [|[k0 v0] r]; simpl; [discriminate|]. intros H.
+  exists (k0, v0), r. split; [reflexivity|]. simpl. destruct (cmp k0 k); congruence.
+Qed.
+Lemma first_le_false (n : recs) k : n <> [] -> first_le n k = false -> head_gt n k.
+Proof.
+  destruct n as [|[k0 v0] r]; simpl; [congruence|]. intros _ H. destruct (cmp k0 k); congruence.
+Qed.
+
+(* all records of a sorted prefix come before k when the next node starts at or before k *)
+Lemma prefix_all_lt (a n : recs) k : sorted (a ++ n) -> first_le n k = true -> all_lt a k.
+Proof.
+  intros Hs Hf. destruct (first_le_spec _ _ Hf) as [e [r [-> He]]].
+  apply sorted_app_inv in Hs. destruct Hs as [_ [_ H]].
+  apply Forall_forall. intros x Hx. eapply cmp_lt_le_trans; [apply (H x e Hx); left; reflexivity|exact He].
+Qed.
+
+(* ---- structural part of the invariant ---- *)
+Definition node_ok (n : node) : Prop := snd n <> [] /\ length (snd n) <= IDXNUM.
+Definition NodeInv (c : chain) : Prop := Forall node_ok c /\ sorted (flat c).
+
+Ltac okf := repeat first [assumption | apply Forall_nil | apply Forall_cons | solve [auto]].
+
+Lemma flat_cons (n : node) (c : chain) : flat (n :: c) = snd n ++ flat c.
+Proof. reflexivity. Qed.
+
+(* specification of one put at the level of the flattened chain *)
+Definition spec_put (l : recs) (k : K) (v : V) (noover newok : bool) : pres * recs :=
+  match s_get l k with
+  | Some old => if noover then (PExists, l)
+                else match upd old v with Some nv => (POk, s_put l k nv) | None => (PErr, l) end
+  | None => if newok then (POk, s_put l k v) else (PErr, l)
+  end.
+
+Lemma found_nth (r : recs) k : found_at r k (pos r k) = true ->
+  exists k1 v0, nth_error r (pos r k) = Some (k1, v0) /\ s_get r k = Some v0.
+Proof.
+  intros H. rewrite s_get_in_node, H. unfold found_at in H.
+  destruct (nth_error r (pos r k)) as [[k1 v1]|] eqn:E; [|discriminate].
+  exists k1, v1. auto.
+Qed.
+Lemma notfound_get (r : recs) k : found_at r k (pos r k) = false -> s_get r k = None.
+Proof. intros H. rewrite s_get_in_node, H. reflexivity. Qed.
+
+(* put_in: the node `lower` is the right one (rest starts after k) *)
+Lemma put_in_flat fresh lid lrecs rest k v noover newok r c' ch :
+  head_gt (flat rest) k ->
+  Forall node_ok ((lid, lrecs) :: rest) ->
+  put_in K V cmp IDXNUM PIVOT upd fresh (lid, lrecs) rest k v noover newok = (r, c', ch) ->
+  (r, flat c') = (fst (spec_put lrecs k v noover newok), snd (spec_put lrecs k v noover newok) ++ flat rest)
+  /\ Forall node_ok c'.
+Proof.
+  intros Hg Hok. unfold put_in, spec_put.
+  inversion Hok as [|? ? Hl Hrest]; subst. destruct Hl as [Hne Hlen]. simpl in Hne, Hlen.
+  destruct (found_at lrecs k (pos lrecs k)) eqn:Ef.
+  - destruct (found_nth _ _ Ef) as [k1 [v0 [Hn Hg0]]]. rewrite Hg0, Hn.
+    destruct noover.
+    + intros H; inversion H; subst. split; [reflexivity|assumption].
+    + destruct (upd v0 v) as [nv|].
+      * intros H; inversion H; subst. split.
+        -- rewrite flat_cons. simpl. rewrite s_put_pos, Ef. reflexivity.
+        -- constructor; [|assumption]. split; simpl.
+           ++ intros E. apply (f_equal (@length _)) in E. rewrite update_at_length in E.
+              destruct lrecs; [congruence|discriminate].
+           ++ rewrite update_at_length. exact Hlen.
+      * intros H; inversion H; subst. split; [reflexivity|assumption].
+  - rewrite (notfound_get _ _ Ef).
+    destruct newok; simpl.
+    2:{ intros H; inversion H; subst. split; [reflexivity|assumption]. }
+    assert (Hsp : s_put lrecs k v = insert_at lrecs (pos lrecs k) (k, v)) by (rewrite s_put_pos, Ef; reflexivity).
+    destruct (Nat.ltb (length lrecs) IDXNUM) eqn:Elt.
+    + apply Nat.ltb_lt in Elt. intros H; inversion H; subst. split.
+      * rewrite flat_cons. simpl. rewrite Hsp. reflexivity.
+      * constructor; [|assumption]. split; simpl.
+        -- intros E. apply (f_equal (@length _)) in E. rewrite insert_at_length in E. discriminate.
+        -- rewrite insert_at_length. lia.
+    + apply Nat.ltb_ge in Elt. assert (Hfull : length lrecs = IDXNUM) by lia.
+      pose proof (pos_le_length lrecs k) as Hpl.
+      (* common facts for the split *)
+      assert (Hk : firstn PIVOT lrecs ++ skipn PIVOT lrecs = lrecs) by apply firstn_skipn.
+      assert (Hkl : length (firstn PIVOT lrecs) = PIVOT) by (rewrite firstn_length; lia).
+      assert (Hml : length (skipn PIVOT lrecs) = IDXNUM - PIVOT) by (rewrite skipn_length; lia).
+      assert (Hsplit_hi : PIVOT < pos lrecs k ->
+                 firstn PIVOT lrecs ++ insert_at (skipn PIVOT lrecs) (pos (skipn PIVOT lrecs) k) (k, v)
+                 = insert_at lrecs (pos lrecs k) (k, v)).
+      { intros Hp. rewrite pos_skipn by lia. rewrite <- insert_at_app_r. rewrite Hk, Hkl. f_equal. lia. }
+      assert (Hsplit_lo : pos lrecs k <= PIVOT ->
+                 insert_at (firstn PIVOT lrecs) (pos (firstn PIVOT lrecs) k) (k, v) ++ skipn PIVOT lrecs
+                 = insert_at lrecs (pos lrecs k) (k, v)).
+      { intros Hp. rewrite pos_firstn by lia. rewrite <- insert_at_app_l by (rewrite Hkl; lia). rewrite Hk. reflexivity. }
+      assert (Hok_keep : node_ok (lid, firstn PIVOT lrecs)).
+      { split; simpl; [intros E; rewrite E in Hkl; simpl in Hkl; lia | lia]. }
+      assert (Hok_moved : node_ok (fresh, skipn PIVOT lrecs)).
+      { split; simpl; [intros E; rewrite E in Hml; simpl in Hml; lia | lia]. }
+      assert (Hok_keep_i : forall i, node_ok (lid, insert_at (firstn PIVOT lrecs) i (k, v))).
+      { intros i. split; simpl; [intros E; apply (f_equal (@length _)) in E; rewrite insert_at_length in E; discriminate|].
+        rewrite insert_at_length. lia. }
+      assert (Hok_moved_i : forall i, node_ok (fresh, insert_at (skipn PIVOT lrecs) i (k, v))).
+      { intros i. split; simpl; [intros E; apply (f_equal (@length _)) in E; rewrite insert_at_length in E; discriminate|].
+        rewrite insert_at_length. lia. }
+      assert (Hok_single : node_ok (fresh, [(k, v)])).
+      { split; simpl; [discriminate|lia]. }
+      assert (Hok_l : node_ok (lid, lrecs)) by (split; assumption).
+      destruct rest as [|[uid urecs] rest'].
+      * (* no upper node *)
+        destruct (Nat.eqb (pos lrecs k) (length lrecs)) eqn:Ee.
+        -- apply Nat.eqb_eq in Ee. intros H; inversion H; subst. split.
+           ++ rewrite !flat_cons. simpl. rewrite Hsp, Ee, insert_at_end. change (flat []) with (@nil (K * V)). rewrite ?app_nil_r. reflexivity.
+           ++ okf.
+        -- apply Nat.eqb_neq in Ee.
+           destruct (Nat.ltb PIVOT (pos lrecs k)) eqn:Ep.
+           ++ apply Nat.ltb_lt in Ep. intros H; inversion H; subst. split.
+              ** rewrite !flat_cons. simpl. rewrite Hsp, <- Hsplit_hi by exact Ep. change (flat []) with (@nil (K * V)). rewrite ?app_nil_r. reflexivity.
+              ** okf.
+           ++ apply Nat.ltb_ge in Ep. intros H; inversion H; subst. split.
+              ** rewrite !flat_cons. simpl. rewrite Hsp, <- Hsplit_lo by exact Ep. change (flat []) with (@nil (K * V)). rewrite ?app_nil_r. reflexivity.
+              ** okf.
+      * inversion Hrest as [|? ? Hu Hrest']; subst. destruct Hu as [Hune Hulen]. simpl in Hune, Hulen.
+        destruct (Nat.eqb (pos lrecs k) IDXNUM && Nat.ltb (length urecs) IDXNUM) eqn:Eu.
+        -- (* add to upper *)
+           apply andb_true_iff in Eu. destruct Eu as [Eu1 Eu2].
+           apply Nat.eqb_eq in Eu1. apply Nat.ltb_lt in Eu2.
+           intros H; inversion H; subst. split.
+           ++ rewrite !flat_cons. simpl. rewrite Hsp.
+              replace (pos lrecs k) with (length lrecs) by lia. rewrite insert_at_end.
+              rewrite <- app_assoc. simpl. f_equal. f_equal.
+              (* the key goes to the front of upper: upper starts after k *)
+              rewrite flat_cons in Hg. simpl in Hg.
+              destruct urecs as [|[k1 v1] ur]; [congruence|]. simpl in Hg. simpl. rewrite Hg. reflexivity.
+           ++ constructor; [split; simpl; assumption|]. constructor; [|assumption].
+              split; simpl; [intros E; apply (f_equal (@length _)) in E; rewrite insert_at_length in E; discriminate|].
+              rewrite insert_at_length. lia.
+        -- destruct (Nat.eqb (pos lrecs k) (length lrecs)) eqn:Ee.
+           ++ apply Nat.eqb_eq in Ee. intros H; inversion H; subst. split.
+              ** rewrite !flat_cons. simpl. rewrite Hsp, Ee, insert_at_end. rewrite <- app_assoc. reflexivity.
+              ** assert (node_ok (uid, urecs)) by (split; assumption). okf.
+           ++ apply Nat.eqb_neq in Ee.
+              destruct (Nat.ltb PIVOT (pos lrecs k)) eqn:Ep.
+              ** apply Nat.ltb_lt in Ep. intros H; inversion H; subst. split.
+                 --- rewrite !flat_cons. simpl. rewrite Hsp, <- Hsplit_hi by exact Ep. rewrite <- app_assoc. reflexivity.
+                 --- assert (node_ok (uid, urecs)) by (split; assumption). okf.
+              ** apply Nat.ltb_ge in Ep. intros H; inversion H; subst. split.
+                 --- rewrite !flat_cons. simpl. rewrite Hsp, <- Hsplit_lo by exact Ep. rewrite <- app_assoc. reflexivity.
+                 --- assert (node_ok (uid, urecs)) by (split; assumption). okf.
+Qed.
+
+(* spec_put through a prefix of smaller records *)
+Lemma spec_put_app_lt (a b : recs) k v noover newok : all_lt a k ->
+  spec_put (a ++ b) k v noover newok
+  = (fst (spec_put b k v noover newok), a ++ snd (spec_put b k v noover newok)).
+Proof.
+  intros H. unfold spec_put. rewrite s_get_app_lt by exact H.
+  destruct (s_get b k) as [old|].
+  - destruct noover; [reflexivity|]. destruct (upd old v); [|reflexivity].
+    simpl. rewrite s_put_app_lt by exact H. reflexivity.
+  - destruct newok; [|reflexivity]. simpl. rewrite s_put_app_lt by exact H. reflexivity.
+Qed.
+Lemma spec_put_app_in (a b : recs) k v noover newok : head_gt b k ->
+  spec_put (a ++ b) k v noover newok
+  = (fst (spec_put a k v noover newok), snd (spec_put a k v noover newok) ++ b).
+Proof.
+  intros H. unfold spec_put. rewrite s_get_app_in by exact H.
+  destruct (s_get a k) as [old|].
+  - destruct noover; [reflexivity|]. destruct (upd old v); [|reflexivity].
+    simpl. rewrite s_put_app_in by exact H. reflexivity.
+  - destruct newok; [|reflexivity]. simpl. rewrite s_put_app_in by exact H. reflexivity.
+Qed.
+
+Lemma node_ok_nonempty (c : chain) : Forall node_ok c -> c <> [] -> flat c <> [].
+Proof.
+  intros H Hc. destruct c as [|[i r] c']; [congruence|]. inversion H as [|? ? [Hn _] _]; subst.
+  rewrite flat_cons. simpl in *. destruct r; [congruence|discriminate].
+Qed.
+
+Lemma head_gt_flat (nx : node) (rest : chain) k :
+  node_ok nx -> first_le (snd nx) k = false -> head_gt (flat (nx :: rest)) k.
+Proof.
+  intros [Hn _] Hf. rewrite flat_cons. pose proof (first_le_false _ _ Hn Hf) as Hg.
+  destruct (snd nx); [congruence|]. exact Hg.
+Qed.
+
+Lemma put_nodes_flat : forall rest fresh lid lrecs k v noover newok r c' ch,
+  Forall node_ok ((lid, lrecs) :: rest) ->
+  sorted (flat ((lid, lrecs) :: rest)) ->
+  put_nodes K V cmp IDXNUM PIVOT upd fresh (lid, lrecs) rest k v noover newok = (r, c', ch) ->
+  (r, flat c') = spec_put (flat ((lid, lrecs) :: rest)) k v noover newok /\ Forall node_ok c'.
+Proof.
+  induction rest as [|[nid nrecs] rest' IH]; intros fresh lid lrecs k v noover newok r c' ch Hok Hs H.
+  - cbn [put_nodes] in H. apply put_in_flat in H; [|exact I|exact Hok]. destruct H as [H1 H2]. split; [|exact H2].
+    rewrite H1. rewrite flat_cons. simpl. change (flat []) with (@nil (K * V)). rewrite !app_nil_r.
+    destruct (spec_put lrecs k v noover newok); reflexivity.
+  - cbn [put_nodes snd] in H. inversion Hok as [|? ? Hl Hrest]; subst.
+    destruct (first_le nrecs k) eqn:Ef.
+    + destruct (put_nodes K V cmp IDXNUM PIVOT upd fresh (nid, nrecs) rest' k v noover newok) as [[r0 c0] ch0] eqn:E.
+      cbv beta iota in H. inversion H; subst. clear H.
+      rewrite flat_cons in Hs. simpl in Hs.
+      destruct (IH _ _ _ _ _ _ _ _ _ _ Hrest (proj1 (proj2 (sorted_app_inv _ _ Hs))) E) as [IH1 IH2].
+      split; [|constructor; assumption].
+      rewrite !(flat_cons (lid, lrecs)). simpl.
+      assert (Hlt : all_lt lrecs k).
+      { rewrite flat_cons in Hs. simpl in Hs. rewrite app_assoc in Hs.
+        apply sorted_app_inv in Hs. destruct Hs as [Hs _]. eapply prefix_all_lt; eauto. }
+      rewrite spec_put_app_lt by exact Hlt. rewrite <- IH1. reflexivity.
+    + apply put_in_flat in H; [| |exact Hok].
+      2:{ inversion Hrest; subst. apply head_gt_flat; assumption. }
+      destruct H as [H1 H2]. split; [|exact H2]. rewrite H1.
+      rewrite (flat_cons (lid, lrecs)). simpl.
+      rewrite spec_put_app_in; [reflexivity|]. inversion Hrest; subst. apply head_gt_flat; assumption.
+Qed.
+
+Theorem put_chain_refines fresh c k v noover newok r c' ch :
+  NodeInv c ->
+  put_chain K V cmp IDXNUM PIVOT upd fresh c k v noover newok = (r, c', ch) ->
+  (r, flat c') = spec_put (flat c) k v noover newok /\ Forall node_ok c'.
+Proof.
+  intros [Hok Hs] H. destruct c as [|[i0 r0] rest]; cbn [put_chain] in H.
+  - unfold spec_put. simpl. destruct newok; inversion H; subst; split; try reflexivity; try constructor.
+    + split; simpl; [discriminate|lia].
+    + constructor.
+  - destruct (first_le r0 k) eqn:Ef.
+    + eapply put_nodes_flat; eauto.
+    + inversion Hok as [|? ? Hn Hrest]; subst.
+      assert (Hg : head_gt (flat ((i0, r0) :: rest)) k) by (apply head_gt_flat; assumption).
+      assert (Hp0 : pos r0 k = 0).
+      { destruct Hn as [Hne _]. simpl in Hne. destruct r0 as [|[k1 v1] r0']; [congruence|].
+        rewrite flat_cons in Hg. simpl in Hg. simpl. rewrite Hg. reflexivity. }
+      assert (Hsp : forall nk nn, spec_put (flat ((i0, r0) :: rest)) k v nk nn
+                    = if nn then (POk, (k, v) :: flat ((i0, r0) :: rest)) else (PErr, flat ((i0, r0) :: rest))).
+      { intros nk nn. unfold spec_put. destruct (flat ((i0, r0) :: rest)) as [|[k1 v1] l]; [reflexivity|].
+        simpl in *. rewrite Hg. reflexivity. }
+      rewrite Hsp. clear Hsp.
+      destruct newok; cbn [negb] in H.
+      2:{ inversion H; subst. split; [reflexivity|assumption]. }
+      destruct (Nat.ltb (length r0) IDXNUM) eqn:El; inversion H; subst.
+      * split.
+        -- rewrite !flat_cons. simpl. rewrite Hp0. destruct r0; reflexivity.
+        -- constructor; [|assumption]. destruct Hn as [Hne Hl]. apply Nat.ltb_lt in El. split; simpl.
+           ++ intros E. apply (f_equal (@length _)) in E. rewrite insert_at_length in E. discriminate.
+           ++ rewrite insert_at_length. simpl in Hl. lia.
+      * split; [reflexivity|]. constructor; [|assumption]. split; simpl; [discriminate|lia].
+Qed.
+
+(* sortedness is a property of the specification *)
+Lemma all_lt_in (l : recs) k x : all_lt l k -> In x l -> cmp (fst x) k = Lt.
+Proof. unfold all_lt. rewrite Forall_forall. auto. Qed.
+
+Lemma s_put_sorted (l : recs) k v : sorted l -> sorted (s_put l k v).
+Proof.
+  induction l as [|[k0 v0] l IH]; intros Hs; simpl.
+  - repeat constructor.
+  - inversion Hs as [|? ? Hs' Hf]; subst.
+    destruct (cmp k0 k) eqn:E.
+    + constructor; [exact Hs'|]. exact Hf.
+    + constructor; [apply IH; exact Hs'|].
+      (* every element of s_put l k v is either k or an element of l *)
+      assert (Hin : forall x, In x (s_put l k v) -> x = (k, v) \/ In x l \/ exists v1, In (fst x, v1) l).
+      { clear. induction l as [|[k1 v1] l IH]; simpl; intros x Hx.
+        - destruct Hx as [<-|[]]. left; reflexivity.
+        - destruct (cmp k1 k); simpl in Hx.
+          + destruct Hx as [<-|Hx]; [right; right; exists v1; left; reflexivity|right; left; right; exact Hx].
+          + destruct Hx as [<-|Hx]; [right; left; left; reflexivity|].
+            destruct (IH _ Hx) as [->|[H|[v2 H]]]; [left; reflexivity|right; left; right; exact H|right; right; exists v2; right; exact H].
+          + destruct Hx as [<-|[<-|Hx]]; [left; reflexivity|right; left; left; reflexivity|right; left; right; exact Hx]. }
+      apply Forall_forall. intros x Hx. rewrite Forall_forall in Hf.
+      destruct (Hin x Hx) as [->|[H|[v2 H]]]; unfold klt; simpl.
+      * exact E.
+      * apply (Hf x H).
+      * apply (Hf _ H).
+    + constructor; [exact Hs|]. constructor.
+      * unfold klt. simpl. apply cmp_gt_lt. exact E.
+      * rewrite Forall_forall in *. intros x Hx. unfold klt in *. simpl in *.
+        eapply cmp_trans; [apply cmp_gt_lt; exact E|apply Hf; exact Hx].
+Qed.
+
+Lemma spec_put_sorted (l : recs) k v noover newok : sorted l -> sorted (snd (spec_put l k v noover newok)).
+Proof.
+  intros Hs. unfold spec_put. destruct (s_get l k) as [old|].
+  - destruct noover; [exact Hs|]. destruct (upd old v); [apply s_put_sorted; exact Hs|exact Hs].
+  - destruct newok; [apply s_put_sorted; exact Hs|exact Hs].
+Qed.
+
+Theorem put_chain_inv fresh c k v noover newok r c' ch :
+  NodeInv c -> put_chain K V cmp IDXNUM PIVOT upd fresh c k v noover newok = (r, c', ch) -> NodeInv c'.
+Proof.
+  intros Hi H. destruct (put_chain_refines _ _ _ _ _ _ _ _ _ Hi H) as [H1 H2]. split; [exact H2|].
+  destruct Hi as [_ Hs]. pose proof (spec_put_sorted (flat c) k v noover newok Hs) as Hp.
+  rewrite <- H1 in Hp. exact Hp.
+Qed.
+
+(* ---- look-up ---- *)
+Lemma lower_nodes_get : forall rest lid lrecs k,
+  Forall node_ok ((lid, lrecs) :: rest) -> sorted (flat ((lid, lrecs) :: rest)) ->
+  s_get (flat ((lid, lrecs) :: rest)) k = s_get (snd (lower_nodes K V cmp (lid, lrecs) rest k)) k.
+Proof.
+  induction rest as [|[nid nrecs] rest' IH]; intros lid lrecs k Hok Hs; cbn [lower_nodes snd].
+  - rewrite flat_cons. simpl. change (flat []) with (@nil (K * V)). rewrite app_nil_r. reflexivity.
+  - inversion Hok as [|? ? Hl Hrest]; subst.
+    destruct (first_le nrecs k) eqn:Ef.
+    + rewrite flat_cons in *. simpl in *.
+      assert (Hlt : all_lt lrecs k).
+      { rewrite flat_cons in Hs. simpl in Hs. rewrite app_assoc in Hs.
+        apply sorted_app_inv in Hs. destruct Hs as [Hs _]. eapply prefix_all_lt; eauto. }
+      rewrite s_get_app_lt by exact Hlt. apply IH; [exact Hrest|].
+      apply sorted_app_inv in Hs. tauto.
+    + rewrite flat_cons. simpl. apply s_get_app_in. inversion Hrest; subst. apply head_gt_flat; assumption.
+Qed.
+
+Theorem get_chain_refines c k : NodeInv c -> get_chain K V cmp c k = s_get (flat c) k.
+Proof.
+  intros [Hok Hs]. unfold get_chain, lower_of. destruct c as [|[i0 r0] rest]; [reflexivity|].
+  cbn [snd]. destruct (first_le r0 k) eqn:Ef.
+  - pose proof (lower_nodes_get rest i0 r0 k Hok Hs) as L.
+    destruct (lower_nodes K V cmp (i0, r0) rest k) as [lid lr]. cbn [snd] in *.
+    rewrite <- s_get_in_node. symmetry. exact L.
+  - inversion Hok as [|? ? Hn Hrest]; subst.
+    pose proof (head_gt_flat (i0, r0) rest k Hn Ef) as Hg.
+    symmetry. apply s_get_head_gt. exact Hg.
+Qed.
+
+(* ---- deletion ---- *)
+Lemma remove_at_length (n : recs) i : i < length n -> length (remove_at n i) = length n - 1.
+Proof.
+  revert i; induction n as [|x r IH]; intros i Hi; simpl in *; [lia|].
+  destruct i as [|j]; simpl; [lia|]. rewrite IH by lia. lia.
+Qed.
+
+Lemma found_lt_length (r : recs) k : found_at r k (pos r k) = true -> pos r k < length r.
+Proof.
+  unfold found_at. intros H. destruct (nth_error r (pos r k)) eqn:E; [|discriminate].
+  apply nth_error_Some. congruence.
+Qed.
+
+Lemma s_del_notfound (r : recs) k : found_at r k (pos r k) = false -> s_del r k = r.
+Proof. intros H. rewrite s_del_pos, H. reflexivity. Qed.
+
+Lemma del_at_flat prev lid lrecs rest k c' ch :
+  found_at lrecs k (pos lrecs k) = true ->
+  Forall node_ok ((lid, lrecs) :: rest) ->
+  del_at K V prev (lid, lrecs) rest (pos lrecs k) = (c', ch) ->
+  flat c' = s_del lrecs k ++ flat rest /\ Forall node_ok c'.
+Proof.
+  intros Hf Hok. unfold del_at. inversion Hok as [|? ? [Hne Hlen] Hrest]; subst. simpl in Hne, Hlen.
+  pose proof (found_lt_length _ _ Hf) as Hp.
+  rewrite s_del_pos, Hf.
+  destruct (Nat.eqb (length lrecs) 1) eqn:E1; intros H; inversion H; subst.
+  - apply Nat.eqb_eq in E1. split; [|exact Hrest].
+    assert (Hp0 : pos lrecs k = 0) by lia. rewrite Hp0.
+    destruct lrecs as [|x [|y l]]; cbn [length] in E1; try lia. reflexivity.
+  - apply Nat.eqb_neq in E1. split; [reflexivity|]. constructor; [|exact Hrest].
+    split; simpl.
+    + intros E. apply (f_equal (@length _)) in E. rewrite remove_at_length in E by exact Hp. simpl in E. lia.
+    + rewrite remove_at_length by exact Hp. lia.
+Qed.
+
+Lemma del_nodes_flat : forall rest prev lid lrecs k,
+  Forall node_ok ((lid, lrecs) :: rest) -> sorted (flat ((lid, lrecs) :: rest)) ->
+  match del_nodes K V cmp prev (lid, lrecs) rest k with
+  | Some (c', ch) => flat c' = s_del (flat ((lid, lrecs) :: rest)) k /\ Forall node_ok c'
+                     /\ s_get (flat ((lid, lrecs) :: rest)) k <> None
+  | None => s_get (flat ((lid, lrecs) :: rest)) k = None
+  end.
+Proof.
+  induction rest as [|[nid nrecs] rest' IH]; intros prev lid lrecs k Hok Hs; cbn [del_nodes snd fst].
+  - rewrite flat_cons. cbn [snd]. change (flat []) with (@nil (K * V)). rewrite app_nil_r.
+    destruct (found_at lrecs k (pos lrecs k)) eqn:Ef.
+    + destruct (del_at K V prev (lid, lrecs) [] (pos lrecs k)) as [c' ch] eqn:E.
+      destruct (del_at_flat _ _ _ _ _ _ _ Ef Hok E) as [H1 H2].
+      change (flat []) with (@nil (K * V)) in H1. rewrite app_nil_r in H1.
+      repeat split; try assumption. destruct (found_nth _ _ Ef) as [k1 [v0 [_ Hg]]]. congruence.
+    + apply notfound_get. exact Ef.
+  - inversion Hok as [|? ? Hl Hrest]; subst.
+    destruct (first_le nrecs k) eqn:Ef.
+    + assert (Hlt : all_lt lrecs k).
+      { rewrite !flat_cons in Hs. cbn [snd] in Hs. rewrite app_assoc in Hs.
+        apply sorted_app_inv in Hs. destruct Hs as [Hs _]. eapply prefix_all_lt; eauto. }
+      assert (Hs' : sorted (flat ((nid, nrecs) :: rest'))).
+      { rewrite flat_cons in Hs. cbn [snd] in Hs. apply sorted_app_inv in Hs. tauto. }
+      specialize (IH (Some lid) nid nrecs k Hrest Hs').
+      rewrite (flat_cons (lid, lrecs)). cbn [snd].
+      rewrite s_get_app_lt, s_del_app_lt by exact Hlt.
+      destruct (del_nodes K V cmp (Some lid) (nid, nrecs) rest' k) as [[c0 ch0]|].
+      * destruct IH as [H1 [H2 H3]]. rewrite flat_cons. cbn [snd]. rewrite H1.
+        repeat split; [constructor; assumption|exact H3].
+      * exact IH.
+    + assert (Hg : head_gt (flat ((nid, nrecs) :: rest')) k) by (inversion Hrest; subst; apply head_gt_flat; assumption).
+      rewrite (flat_cons (lid, lrecs)). cbn [snd].
+      rewrite s_get_app_in, s_del_app_in by exact Hg.
+      destruct (found_at lrecs k (pos lrecs k)) eqn:Ef2.
+      * destruct (del_at K V prev (lid, lrecs) ((nid, nrecs) :: rest') (pos lrecs k)) as [c' ch] eqn:E.
+        destruct (del_at_flat _ _ _ _ _ _ _ Ef2 Hok E) as [H1 H2].
+        repeat split; try assumption. destruct (found_nth _ _ Ef2) as [k1 [v0 [_ Hg0]]]. congruence.
+      * apply notfound_get. exact Ef2.
+Qed.
+
+Lemma s_del_sorted (l : recs) k : sorted l -> sorted (s_del l k).
+Proof.
+  induction l as [|[k0 v0] l IH]; intros Hs; simpl; [constructor|].
+  inversion Hs as [|? ? Hs' Hf]; subst.
+  destruct (cmp k0 k); [exact Hs'| |exact Hs].
+  constructor; [apply IH; exact Hs'|].
+  assert (Hin : forall x, In x (s_del l k) -> In x l).
+  { clear. induction l as [|[k1 v1] l IH]; simpl; intros x Hx; [exact Hx|].
+    destruct (cmp k1 k); simpl in *; [right; exact Hx| |exact Hx].
+    destruct Hx as [<-|Hx]; [left; reflexivity|right; apply IH; exact Hx]. }
+  rewrite Forall_forall in *. intros x Hx. apply Hf. apply Hin. exact Hx.
+Qed.
+
+Theorem del_chain_refines c k :
+  NodeInv c ->
+  match del_chain K V cmp c k with
+  | Some (c', ch) => flat c' = s_del (flat c) k /\ NodeInv c' /\ s_get (flat c) k <> None
+  | None => s_get (flat c) k = None
+  end.
+Proof.
+  intros [Hok Hs]. unfold del_chain. destruct c as [|[i0 r0] rest]; [reflexivity|].
+  cbn [snd]. destruct (first_le r0 k) eqn:Ef.
+  - pose proof (del_nodes_flat rest None i0 r0 k Hok Hs) as H.
+    destruct (del_nodes K V cmp None (i0, r0) rest k) as [[c' ch]|]; [|exact H].
+    destruct H as [H1 [H2 H3]]. repeat split; try assumption. rewrite H1. apply s_del_sorted. exact Hs.
+  - inversion Hok as [|? ? Hn Hrest]; subst.
+    pose proof (head_gt_flat (i0, r0) rest k Hn Ef) as Hg.
+    apply s_get_head_gt. exact Hg.
+Qed.
+
+(* ---- histories: the chain refines the ordered map for every operation sequence ---- *)
+Inductive op := OpPut (k : K) (v : V) (noover newok : bool) | OpDel (k : K) | OpGet (k : K).
+Inductive out := OutPut (r : pres) | OutDel (found : bool) | OutGet (v : option V).
+
+Definition step (st : nat * chain) (o : op) : (nat * chain) * out :=
+  let '(fresh, c) := st in
+  match o with
+  | OpPut k v noover newok =>
+    let '(r, c', ch) := put_chain K V cmp IDXNUM PIVOT upd fresh c k v noover newok in
+    ((S fresh, match r with POk => c' | _ => c end), OutPut r)
+  | OpDel k => match del_chain K V cmp c k with
+               | Some (c', _) => ((fresh, c'), OutDel true)
+               | None => ((fresh, c), OutDel false) end
+  | OpGet k => ((fresh, c), OutGet (get_chain K V cmp c k))
+  end.
+Definition spec_step (l : recs) (o : op) : recs * out :=
+  match o with
+  | OpPut k v noover newok => let '(r, l') := spec_put l k v noover newok in (l', OutPut r)
+  | OpDel k => (s_del l k, OutDel (match s_get l k with Some _ => true | None => false end))
+  | OpGet k => (l, OutGet (s_get l k))
+  end.
+
+Fixpoint run (st : nat * chain) (ops : list op) : (nat * chain) * list out :=
+  match ops with
+  | [] => (st, [])
+  | o :: r => let '(st', x) := step st o in let '(st'', xs) := run st' r in (st'', x :: xs)
+  end.
+Fixpoint spec_run (l : recs) (ops : list op) : recs * list out :=
+  match ops with
+  | [] => (l, [])
+  | o :: r => let '(l', x) := spec_step l o in let '(l'', xs) := spec_run l' r in (l'', x :: xs)
+  end.
+
+Lemma spec_put_err_same l k v noover newok : fst (spec_put l k v noover newok) <> POk ->
+  snd (spec_put l k v noover newok) = l.
+Proof.
+  unfold spec_put. destruct (s_get l k) as [old|].
+  - destruct noover; [reflexivity|]. destruct (upd old v); simpl; [congruence|reflexivity].
+  - destruct newok; simpl; [congruence|reflexivity].
+Qed.
+
+Lemma step_refines st o : NodeInv (snd st) ->
+  let '(st', x) := step st o in
+  let '(l', y) := spec_step (flat (snd st)) o in
+  flat (snd st') = l' /\ x = y /\ NodeInv (snd st').
+Proof.
+  destruct st as [fresh c]. cbn [snd]. intros Hi. destruct o as [k v noover newok|k|k]; cbn [step spec_step].
+  - destruct (put_chain K V cmp IDXNUM PIVOT upd fresh c k v noover newok) as [[r c'] ch] eqn:E.
+    destruct (put_chain_refines _ _ _ _ _ _ _ _ _ Hi E) as [H1 H2].
+    pose proof (put_chain_inv _ _ _ _ _ _ _ _ _ Hi E) as H3.
+    destruct (spec_put (flat c) k v noover newok) as [r' l'] eqn:Es. inversion H1; subst. cbn [snd].
+    destruct r'.
+    + split; [reflexivity|]. split; [reflexivity|exact H3].
+    + pose proof (spec_put_err_same (flat c) k v noover newok) as Hsame. rewrite Es in Hsame. simpl in Hsame.
+      rewrite Hsame by discriminate. split; [reflexivity|]. split; [reflexivity|exact Hi].
+    + pose proof (spec_put_err_same (flat c) k v noover newok) as Hsame. rewrite Es in Hsame. simpl in Hsame.
+      rewrite Hsame by discriminate. split; [reflexivity|]. split; [reflexivity|exact Hi].
+  - pose proof (del_chain_refines c k Hi) as H.
+    destruct (del_chain K V cmp c k) as [[c' ch]|]; cbn [snd].
+    + destruct H as [H1 [H2 H3]]. split; [exact H1|]. split; [|exact H2].
+      destruct (s_get (flat c) k); [reflexivity|congruence].
+    + rewrite H. split; [|split; [reflexivity|exact Hi]].
+      symmetry. apply s_del_none. exact H.
+  - rewrite (get_chain_refines c k Hi). split; [reflexivity|]. split; [reflexivity|exact Hi].
+Qed.
+
+Theorem kv_refines_map : forall ops st, NodeInv (snd st) ->
+  let '(st', outs) := run st ops in
+  let '(l', souts) := spec_run (flat (snd st)) ops in
+  flat (snd st') = l' /\ outs = souts /\ NodeInv (snd st').
+Proof.
+  induction ops as [|o ops IH]; intros st Hi; cbn [run spec_run].
+  - split; [reflexivity|]. split; [reflexivity|exact Hi].
+  - pose proof (step_refines st o Hi) as Hs.
+    destruct (step st o) as [st1 x]. destruct (spec_step (flat (snd st)) o) as [l1 y].
+    destruct Hs as [H1 [H2 H3]]. subst.
+    specialize (IH st1 H3). destruct (run st1 ops) as [st2 xs]. destruct (spec_run (flat (snd st1)) ops) as [l2 ys].
+    destruct IH as [I1 [I2 I3]]. subst. split; [reflexivity|]. split; [reflexivity|exact I3].
+Qed.
+
+(* a call that reports an error leaves the contents unchanged *)
+Theorem error_leaves_state st k v noover newok :
+  let '(st', x) := step st (OpPut k v noover newok) in
+  x <> OutPut POk -> snd st' = snd st.
+Proof.
+  destruct st as [fresh c]. cbn [step].
+  destruct (put_chain K V cmp IDXNUM PIVOT upd fresh c k v noover newok) as [[r c'] ch].
+  cbn [snd]. destruct r; [congruence|reflexivity|reflexivity].
+Qed.
+
 End NodeProofs.
